@@ -1158,6 +1158,9 @@ func runStress(h *H, c *Conc, seed, n int) int {
 		if os.Getenv("VERIF_PROFILE") == "tagrace" {
 			cs = g.tagRace()
 		}
+		if os.Getenv("VERIF_PROFILE") == "childrace" {
+			cs = g.childRace()
+		}
 		c.st = concState{}
 		h.lineNo = 0
 		for _, l := range g.prelude(cs) {
